@@ -173,18 +173,27 @@ class State:
         self.cls = cls
         self.excs = []  # pending exceptional outcomes [(exc_name, State)]
         self.trace = []  # branch decisions, for labels
+        self.tagmap = {}  # z3 ast id of a fact in pc -> tag ("inv:<label>", "lemma:<k>", "axiom:reach", ...)
 
     def copy(self):
         s = State(dict(self.env), list(self.pc), list(self.guards), self.mod, self.cls)
         s.trace = list(self.trace)
+        s.tagmap = dict(self.tagmap)
         return s
 
-    def assume(self, fact):
+    def assume(self, fact, tag=None):
         if fact is True:
             return
+        if fact is False and __import__("os").environ.get("PYVC_DEBUG_FALSE"):
+            import traceback
+
+            traceback.print_stack(limit=8)
         if self.guards:
             fact = b_implies(b_and(*self.guards), fact)
-        self.pc.append(to_z3(fact))
+        z = to_z3(fact)
+        self.pc.append(z)
+        if tag is not None:
+            self.tagmap[z.get_id()] = tag
 
     def hyps(self):
         return list(self.pc) + [to_z3(g) for g in self.guards]
@@ -209,10 +218,11 @@ class Obligation:
         self.trace = trace or []
         self.meta = meta or {}
         self.result = None
+        self.focus_hyps = None
 
-    def smt2(self, extra=""):
+    def smt2(self, focused=False):
         s = z3.Solver()
-        for h in self.hyps:
+        for h in (self.focus_hyps if focused and self.focus_hyps is not None else self.hyps):
             s.add(h)
         s.add(z3.Not(to_z3(self.goal)))
         return s.to_smt2()
@@ -232,11 +242,20 @@ class Ctx:
         self.paths = 0
         self.inline_depth = 0
 
-    def oblige(self, st, goal, label, node=None, kind="assert", meta=None):
+    def oblige(self, st, goal, label, node=None, kind="assert", meta=None, focus=None):
         if goal is True:
             self.trivial += 1
             return
         hyps = st.hyps()
+        focus_hyps = None
+        if focus is not None:
+            import fnmatch
+
+            focus_hyps = []
+            for h in hyps:
+                tag = st.tagmap.get(h.get_id())
+                if tag is None or any(fnmatch.fnmatch(tag, pat) for pat in focus):
+                    focus_hyps.append(h)
         ob = Obligation(
             f"{self.fn_label}:{label}",
             kind,
@@ -247,6 +266,7 @@ class Ctx:
             list(st.trace),
             meta,
         )
+        ob.focus_hyps = focus_hyps
         self.obligations.append(ob)
 
     def feasible(self, st, timeout_ms=300):
@@ -296,7 +316,14 @@ class Interp:
             raise Outside(f"statement {type(node).__name__}", node)
         outs = m(node, st)
         final = []
+        ghosts = getattr(getattr(self.ctx, "current_contract", None), "ghost_after", None)
         for o in outs:
+            if ghosts and o.kind == "normal" and self.ctx.inline_depth == 0:
+                src = self.ctx.current_mod.lines[node.lineno - 1].strip() if hasattr(node, "lineno") else ""
+                for prefix, binds in ghosts.items():
+                    if src.startswith(prefix):
+                        for gname, expr in binds.items():
+                            o.st.env[gname] = self.ctx.registry.eval_clause_value(self, o.st, expr)
             self._flush_excs(o.st, final)
             final.append(o)
         return final
@@ -408,7 +435,12 @@ class Interp:
         outs_t = self.exec_block(node.body, st_t) if self.ctx.feasible(st_t) else []
         outs_f = self.exec_block(node.orelse, st_f) if self.ctx.feasible(st_f) else []
         res = None
-        if len(outs_t) == 1 and len(outs_f) == 1 and outs_t[0].kind == outs_f[0].kind == "normal":
+        if (
+            not self.ctx.options.get("no_merge")
+            and len(outs_t) == 1
+            and len(outs_f) == 1
+            and outs_t[0].kind == outs_f[0].kind == "normal"
+        ):
             merged = self._merge_states(c, st, outs_t[0].st, outs_f[0].st)
             if merged is not None:
                 res = [Outcome("normal", merged)]
@@ -438,6 +470,9 @@ class Interp:
                 if k == "__axioms__":
                     env[k] = a.env.get(k, frozenset()) & b.env.get(k, frozenset())
                     continue
+                if k == "__names__":
+                    env[k] = dict(base.env.get(k, {}))
+                    continue
                 if k.startswith("__") and k in a.env and k in b.env and a.env[k] is b.env[k]:
                     env[k] = a.env[k]
                     continue
@@ -462,6 +497,7 @@ class Interp:
         out = State(env, pc, list(base.guards), base.mod, base.cls)
         out.trace = list(base.trace)
         out.excs = a.excs + b.excs
+        out.tagmap = dict(base.tagmap)
         return out
 
     # ------------------------------------------------------------------ try
